@@ -18,7 +18,8 @@ def build(name, var="tas", window="none", r=None, **over):
     if name in ("CDFt", "QuantileDeltaMapping"):
         kw["running_window_mode_over_years_of_cm_future"] = (window == "years")
         if window == "years":
-            kw.update(running_window_over_years_of_cm_future_length=3, running_window_over_years_of_cm_future_step_length=1)
+            yl, ys = (3, 1) if r is None else r.choice([(3, 1), (3, 3), (4, 2), (5, 3), (2, 2)])
+            kw.update(running_window_over_years_of_cm_future_length=yl, running_window_over_years_of_cm_future_step_length=ys)
     if name == "ECDFM" and var == "tas":
         kw["distribution"] = scipy.stats.norm
     if name == "QuantileDeltaMapping":
